@@ -198,25 +198,49 @@ def run_textmon(ctx):
         args += ["--replay", ctx.replay]
     doc = ctx.run_engine(binary, args, "textmon")
     doc["engine_args"] = args
+    if ctx.tier == "thorough" and not ctx.replay and ctx.pid in ("C12", "C13"):
+        # the unchecked constructors (Position::new_unchecked / Span::new_unchecked) under Miri, small scope
+        env = dict(ctx.env)
+        env["CARGO_TARGET_DIR"] = os.path.join(ctx.root, "target", "miri")
+        env["MIRIFLAGS"] = "-Zmiri-disable-isolation -Zmiri-ignore-leaks"
+        out = os.path.join(ctx.scratch, "%s-textmon-miri.json" % ctx.pid)
+        if os.path.exists(out):
+            os.remove(out)
+        cmd = ["miri", "run", "--offline", "-p", "textmon", "--", "--prop", ctx.pid, "--tier", "quick", "--seed", str(ctx.seed), "--max-len", "3", "--jobs", "4", "--out", out]
+        p = ctx.cargo(cmd, ENGINES_DIR, "Miri pass (strings of length <= 3)", timeout=5400, env=env, toolchain="+nightly")
+        if p.returncode == 0 and os.path.exists(out):
+            with open(out) as f:
+                m = json.load(f)
+            doc["counters"]["miri_evaluations"] = m.get("evaluations", 0)
+            doc["violations"] += m.get("violations", [])
+            for k, v in m.get("violation_counts", {}).items():
+                doc["violation_counts"][k] = doc["violation_counts"].get(k, 0) + v
+            doc["sanitizers"] = ["Miri (strings of length <= 3)"]
+        elif "Undefined Behavior" in p.stdout:
+            at = p.stdout.find("Undefined Behavior")
+            sig = "unclassified/%s/miri-undefined-behaviour" % ctx.pid
+            doc["violations"].append({"signature": sig, "what": "Miri reports undefined behaviour", "witness": {"report": p.stdout[max(0, at - 200):at + 1500]}})
+            doc["violation_counts"][sig] = 1
+        else:
+            doc["inconclusive"].append("Miri pass failed: " + p.stdout[-300:])
     return doc
-
 
 
 # ---------------------------------------------------------------------------------------------
 # the generated recorder ("harness")
 # ---------------------------------------------------------------------------------------------
 
-ALL_FAMILIES = ["core", "repo", "unicode", "kinds", "stack", "slice", "arity", "getter", "rec", "random"]
+ALL_FAMILIES = ["core", "repo", "unicode", "kinds", "stack", "slice", "arity", "getter", "rec", "rand", "random"]
 HARNESS_FAMILIES = {
     "C01": ALL_FAMILIES, "C02": ALL_FAMILIES, "C03": ALL_FAMILIES, "C04": ALL_FAMILIES,
-    "C05": ["stack", "slice", "repo", "random"],
+    "C05": ["stack", "slice", "repo", "rand", "random"],
     "C06": ["slice", "stack"],
     "C07": ["kinds"],
     "C08": ALL_FAMILIES, "C09": ALL_FAMILIES, "C10": ALL_FAMILIES, "C11": ALL_FAMILIES,
     "C15": ALL_FAMILIES, "C16": ALL_FAMILIES,
-    "C17": ["arity", "unicode", "core", "repo", "stack", "getter", "random"],
+    "C17": ["arity", "unicode", "core", "repo", "stack", "getter", "rand", "random"],
     "C18": ALL_FAMILIES,
-    "C20": ["rec", "core", "repo", "getter", "stack", "random"],
+    "C20": ["rec", "core", "repo", "getter", "stack", "rand", "random"],
 }
 HARNESS_DIR = os.path.join(ENGINES_DIR, "harness")
 
@@ -427,7 +451,7 @@ def run_c06(ctx):
 
 def pick_sanitizer_bins(emit, count):
     """One shard per family, in this order of relevance for cursor arithmetic."""
-    order = ["core", "stack", "repo", "unicode", "arity", "getter", "rec", "random"]
+    order = ["core", "stack", "repo", "unicode", "rand", "arity", "getter", "rec", "random"]
     picked = []
     for fam in order:
         for s in emit["shards"]:
